@@ -407,6 +407,7 @@ def _unq(x):
     return x.replace("\\", "")
 
 
+COLLIDE_P = 0.25
 CLOCK_NAMES = []       # (-name of every create_clock of the constraint files parsed last)
 
 
@@ -580,6 +581,15 @@ def run_history(config, ops, use_frac, use_seed, stats=None, record=None, net_cl
     used = []
     rng = random.Random(use_seed)
     m = Module()
+    # name collision (a quarter of the histories): the design also has a hand-made IOPort called exactly like one of the platform's
+    # used ports (one bit wider, met first in the hierarchy), so the netlist renames one of the two `<name>$<k>`; the constraint
+    # file must go on naming the netlist port that carries the platform's pins
+    crng = random.Random((use_seed * 2654435761 + 17) & 0xffffffff)
+    collide_pre = None
+    collision = None      # (base port name, platform width)
+    if crng.random() < COLLIDE_P:
+        collide_pre = Module()
+        m.submodules.pre = collide_pre
     sink = []
     src = Signal(8, name="src")
     bi = 0
@@ -653,6 +663,14 @@ def run_history(config, ops, use_frac, use_seed, stats=None, record=None, net_cl
                 (expect_clk if is_used else optional_loc)[("clk", cport) if not is_used else cport] = node["clock_mhz"] * 1e6
             if is_used:
                 used.append(pname)
+                if collide_pre is not None and collision is None and op["dir"] == "-" and not node["clock_mhz"] and crng.random() < 0.5:
+                    from amaranth.hdl import IOPort, IOBufferInstance
+                    base = pname + ("__p" if n is not None else "__io")
+                    hand = IOPort(len(p) + 1, name=base)
+                    hs = Signal(len(p) + 1, name="hand_in")
+                    collide_pre.submodules.hb = IOBufferInstance(hand, i=hs)
+                    sink.append(hs)
+                    collision = (base, len(p))
     build_should_fail = None
     if config.get("osc_clk"):
         cnt = Signal(4, name="cnt")
@@ -766,6 +784,33 @@ def run_history(config, ops, use_frac, use_seed, stats=None, record=None, net_cl
     if stats is not None:
         stats["probes"]["built"] += 1
     locs, freqs = parse_constraints(ext, text, plan.files)
+    if collision is not None:
+        base, pw = collision
+        ilc = plan.files.get("top.il", "")
+        ilc = ilc.decode() if isinstance(ilc, bytes) else ilc
+        mt = re.search(r"^module \\top$(.*?)^end$", ilc, re.M | re.S)
+        if mt is None:
+            # (this flow writes no RTLIL netlist offline: take the name the constraint file itself uses, if it is one of the two)
+            cands = sorted({nm.split("[")[0] for nm, _pin in locs
+                            if nm.split("[")[0] == base or re.fullmatch(re.escape(base) + r"\$\d+", nm.split("[")[0])})
+            if len(cands) != 1:
+                cands = [base]
+        else:
+            cands = [nm for (w_, nm) in re.findall(r"^\s*wire (?:width (\d+) )?(?:input|output|inout) \d+\s+\\(\S+)$", mt.group(1), re.M)
+                     if int(w_ or 1) == pw and (nm == base or re.fullmatch(re.escape(base) + r"\$\d+", nm))]
+            if len(cands) != 1:
+                raise Violation("platform_port_missing_from_netlist", -1, {"port": base, "width": pw, "candidates": cands})
+        if cands[0] != base:
+            def ren(k):
+                if isinstance(k, str) and (k == base or k.startswith(base + "[")):
+                    return cands[0] + k[len(base):]
+                return k
+            expect_loc = {ren(k): v for k, v in expect_loc.items()}
+            expect_clk = {ren(k): v for k, v in expect_clk.items()}
+            if stats is not None:
+                stats["probes"]["platform_port_renamed_by_collision"] = stats["probes"].get("platform_port_renamed_by_collision", 0) + 1
+        if stats is not None:
+            stats["probes"]["port_name_collision"] = stats["probes"].get("port_name_collision", 0) + 1
     seen = {}
     for name, pin in locs:
         if name in seen:
